@@ -1,6 +1,6 @@
 (* C19 driver: no logic, only parsing of case lines and printing of the model's results.
 
-   FIO;<mode C|D|T>;<srcs a,b ("-" = stdin)>;<out -|c|o:name|O:dir>;<flags: force confirm rec excl as 0/1>;<rmk: letters r / k in command-line order>;
+   FIO;<mode C|D|T>;<srcs a,b ("-" = stdin)>;<out -|c|o:name|O:dir>;<flags: force rec excl as 0/1, then ":" and the first byte of the answer typed at a prompt ("-" none possible, 256 end of input)>;<rmk: letters r / k in command-line order>;
        <dict name or empty>;<patch name or empty>;<fs name=R<tok>|name=D|name=L<target>,...>;<ls dir>child|child,...>;<verdicts>;<probes a,b>
      verdict of one file:  name=<faults>:<cout 0|1|T<n>>:<cchunks t+t>:<items K+t+t/B+t/J+t>
        faults = 7 characters 0/1 (1 = the call succeeds): fopen(src) remove(dst before re-creation) open(dst) fclose(dst) remove(artefact) fclose(src) remove(src),
@@ -90,7 +90,11 @@ let do_fio fields =
       let i = { i_mode = (match mode with "C" -> Compress | "D" -> Decompress | _ -> Test);
                 i_srcs = srcs; i_out = out; i_force = (flags.[0] = '1');
                 i_rmk = List.init (String.length rmk) (fun k -> rmk.[k] = 'r');
-                i_confirm = (flags.[1] = '1'); i_rec = (flags.[2] = '1'); i_excl = (flags.[3] = '1');
+                (* flags = force, rec, excl, then ':' and the first byte of the answer typed at a prompt
+                   ("-" = no interaction possible, 256 = end of input) *)
+                i_answer = (let a = String.sub flags 4 (String.length flags - 4) in
+                            if a = "-" then None else Some (n_of_int (int_of_string a)));
+                i_rec = (flags.[1] = '1'); i_excl = (flags.[2] = '1');
                 i_dict = opt dict; i_patch = opt patch } in
       let fsl = List.map (fun e ->
           let k = String.index e '=' in
